@@ -655,6 +655,7 @@ func c13replay(t *testing.T, cs c13case) (*c13world, []c13viol) {
 
 type c13bdata struct {
 	w    *c13world
+	mu   sync.Mutex        // harness-side record: two request threads may return concurrently when the code under test lets them
 	sigs map[string][]byte // "member/payload" -> signature obtained by the faulty member
 }
 
@@ -671,7 +672,9 @@ func c13scenarioB(n int) *schedx.Scenario {
 					a, _ := anypb.New(c13payload(p))
 					resp, ok, err := w.comps[m].srv.handleSigRequest(x.Ctx, w.peers[0], &pb.BCastSigRequest{Id: c13id, Message: a})
 					if err == nil && ok {
+						d.mu.Lock()
 						d.sigs[fmt.Sprintf("%d/%d", m, p)] = resp.(*pb.BCastSigResponse).GetSignature()
+						d.mu.Unlock()
 					}
 					x.Obs("m%d/p%d=%v", m, p, err == nil)
 				})
